@@ -73,6 +73,8 @@ def _walk_no_nested(fn):
     stack = list(fn.body)
     while stack:
         n = stack.pop()
+        if isinstance(n, (ast.FunctionDef, ast.AsyncFunctionDef, ast.Lambda, ast.ClassDef)):
+            continue          # a def that is itself a statement of the body: its yields are its own
         yield n
         for c in ast.iter_child_nodes(n):
             if isinstance(c, (ast.FunctionDef, ast.AsyncFunctionDef, ast.Lambda, ast.ClassDef)):
